@@ -1097,6 +1097,7 @@ class ObjectT(T):
     extra_body: List[str] = dfield(default_factory=list)
     methods: List[dict] = dfield(default_factory=list)  # serialized methods: {name, ret: T, expr, alias, prop}
     fields_set: bool = False  # @with_fields_set
+    inherit: int = 0  # dataclass: the first `inherit` fields are declared in an undecorated base dataclass (same flat model)
 
     @property
     def named(self):
@@ -1172,6 +1173,22 @@ class ObjectT(T):
         md += f.extra_md
         return " | ".join(md)
 
+    def dc_field_src(self, f):
+        a = self.field_ann(f)
+        args = []
+        if f.factory:
+            args.append(f"default_factory={f.factory}")
+        elif f.default is not None:
+            args.append(f"default={f.default}")
+        elif f.undefined:
+            args.append("default=Undefined")
+        if f.init_false:
+            args.append("init=False")
+        md = self.md_src(f)
+        if md:
+            args.append(f"metadata={md}")
+        return f"    {f.name}: {a}" + (f" = field({', '.join(args)})" if args else "")
+
     def source(self):
         lines = []
         if self.kind == "dataclass":
@@ -1181,11 +1198,19 @@ class ObjectT(T):
                 lines.append(f"@alias(CLASS_ALIASERS[{self.class_aliaser!r}])")
             if self.fields_set:
                 lines.append("@with_fields_set")
-            lines.append(f"@dataclass(frozen={self.frozen})" if self.frozen else "@dataclass")
+            dc = f"@dataclass(frozen={self.frozen})" if self.frozen else "@dataclass"
             tv = self.tvars()
-            lines.append(f"class {self.name}:" if not tv else f"class {self.name}(Generic[{', '.join(v.name for v in tv)}]):")
+            own_fields = self.fields
+            if self.inherit and not tv:
+                base_lines = [dc, f"class {self.name}_B:"]
+                for f in self.fields[: self.inherit]:
+                    base_lines.append(self.dc_field_src(f))
+                lines = base_lines + [""] + lines
+                own_fields = self.fields[self.inherit:]
+            lines.append(dc)
+            lines.append((f"class {self.name}({self.name}_B):" if self.inherit else f"class {self.name}:") if not tv else f"class {self.name}(Generic[{', '.join(v.name for v in tv)}]):")
             initvars = []
-            for f in self.fields:
+            for f in own_fields:
                 a = self.field_ann(f)
                 if f.initvar:
                     a = f"InitVar[{a}]"
@@ -1203,7 +1228,7 @@ class ObjectT(T):
                 if md:
                     args.append(f"metadata={md}")
                 lines.append(f"    {f.name}: {a}" + (f" = field({', '.join(args)})" if args else ""))
-            if not self.fields:
+            if not own_fields:
                 lines.append("    pass")
             if initvars:
                 for f in initvars:
